@@ -72,7 +72,7 @@ Section WlThm.
     destruct (SatCore.propagate sort th_propagate th_check th_pop FUEL s) as [s1 r1] eqn:Ep.
     destruct (propagate_inv T sort sort_perm th_propagate th_check th_pop FUEL thp_ok thc_ok s s1 r1 I Ep) as [I1 (P1 & P2 & [k P3] & P4 & P5 & P6)].
     pose proof (propagate_f_ubs T sort Hsort th_propagate th_check th_pop Hth FUEL s s1 r1 I Ep) as U1.
-    destruct (WL_propagate_f T sort Hsort sort_key_sorted th_propagate th_check th_push th_pop FUEL Hth th_quiet_p th_quiet_c FUEL s s1 r1 I W Ep) as [Q1 Q2].
+    destruct (WL_propagate_f T sort Hsort sort_key_sorted th_propagate th_check th_pop th_quiet_p th_quiet_c FUEL s s1 r1 I W Ep) as [Q1 Q2].
     destruct (propagate_f_dbstep T sort Hsort th_propagate th_check th_pop Hth FUEL s s1 r1 I Ep Bd) as (_ & _ & Bd1).
     destruct r1; inversion E; subst.
     - assert (Hr1 : root_level s1 = true).
@@ -92,8 +92,180 @@ Section WlThm.
 
   Lemma step_ub_wl : forall (s : state) o s' r, Inv T s -> WLfull s -> bound s -> pre s o = true -> step s o = (s', r) -> ub s' = ub s.
   Proof.
-    intros s o s' r I W Bd Hpre E. destruct (op_eq_simplify o) as [->|Hns].
-    - simpl in E, Hpre. apply (WL_simplify_db s s' r I W Bd Hpre E).
-    - eapply step_ubs; eauto.
+    intros s o s' r I W Bd Hpre E.
+    destruct o; try (eapply (step_ubs T sort Hsort th_propagate th_check th_push th_pop FUEL Hth); eauto; discriminate).
+    simpl in E, Hpre. apply (WL_simplify_db s s' r I W Bd Hpre E).
+  Qed.
+  Lemma WL_step : forall (s : state) o s' r, Inv T s -> WLfull s -> bound s -> pre s o = true -> step s o = (s', r) ->
+    dead_after o s' r = false -> WLfull s'.
+  Proof.
+    intros s o s' r I W Bd Hpre E Hdead. destruct o; simpl in E, Hpre, Hdead.
+    - inversion E; subst. unfold SatCoreWlRun_Proofs.WLfull. apply (WL_new_var T); auto. apply I. intros; discriminate.
+    - apply andb_true_iff in Hpre. destruct Hpre as [Hroot Hr].
+      destruct (new_clause sort s l) as [s1 b] eqn:En. inversion E; subst.
+      apply (WL_new_clause T sort Hsort s l s' b I W Hroot (lits_in_range_true s l Hr) En).
+    - apply andb_true_iff in Hpre. destruct Hpre as [Hpre _]. apply andb_true_iff in Hpre. destruct Hpre as [Hq Hr].
+      apply Nat.ltb_lt in Hr.
+      destruct (WL_assume_gen T sort Hsort sort_key_sorted th_propagate th_check th_push th_pop FUEL th_quiet_p th_quiet_c
+                  s s' p r I W (qempty_true s Hq) Hr E) as [[-> Hc]|W']; auto.
+      exfalso. rewrite (root_conflict_root s' Hc) in Hdead. discriminate.
+    - destruct (WL_propagate_f T sort Hsort sort_key_sorted th_propagate th_check th_pop th_quiet_p th_quiet_c FUEL s s' r I W E) as [Q1 Q2].
+      destruct r; try (apply Q1; discriminate). exfalso. rewrite (root_conflict_root s' (Q2 eq_refl)) in Hdead. discriminate.
+    - apply andb_true_iff in Hpre. destruct Hpre as [Hnr Hq]. inversion E; subst. apply negb_true_iff in Hnr.
+      apply (WL_op_pop T th_pop s I W (qempty_true s Hq) Hnr).
+    - apply andb_true_iff in Hpre. destruct Hpre as [Hq Hok].
+      destruct (WL_next T sort Hsort sort_key_sorted th_propagate th_check th_pop FUEL th_quiet_p th_quiet_c
+                  s s' r I W (qempty_true s Hq) Hok E) as [[-> Hc]|W']; auto.
+      exfalso. rewrite Hc in Hdead. discriminate.
+    - apply andb_true_iff in Hpre. destruct Hpre as [Hq Hr]. unfold check in E.
+      destruct (WL_check_loop T sort Hsort sort_key_sorted th_propagate th_check th_push th_pop FUEL Hth th_quiet_p th_quiet_c
+                  l s (decision_level s) s' r I W (qempty_true s Hq) (lits_in_range_true s l Hr) E) as [[-> Hc]|W']; auto.
+      exfalso. rewrite Hc in Hdead. discriminate.
+    - destruct (WL_simplify_db s s' r I W Bd Hpre E) as [_ [[-> Hc]|W']]; auto.
+      exfalso. rewrite (root_conflict_root s' Hc) in Hdead. discriminate.
+  Qed.
+
+  (* whole histories *)
+  Theorem run_wl : forall ops o (s : state), Inv T s -> DbInv s -> WLfull s -> ub s = false ->
+    run_ok (ops ++ [o]) s = true -> ub (run ops s) = false /\ Inv T (run ops s) /\ DbInv (run ops s) /\ WLfull (run ops s).
+  Proof.
+    induction ops as [|x t IH]; intros o s I Dbs W Hub Hok; simpl in *. auto.
+    apply andb_true_iff in Hok. destruct Hok as [Hpre Hok].
+    destruct (step s x) as [s1 r] eqn:E. simpl in *.
+    assert (Hub1 : ub s1 = false). { rewrite (step_ub_wl s x s1 r I W (proj1 Dbs) Hpre E). exact Hub. }
+    destruct (step_inv T sort sort_perm sort_sorted th_propagate th_check th_push th_pop FUEL thp_ok thc_ok s x s1 r I Hpre E Hub1) as (I1 & _).
+    destruct (dead_after x s1 r) eqn:Ed.
+    - destruct t; simpl in Hok; discriminate.
+    - apply (IH o s1 I1 (step_db T sort Hsort th_propagate th_check th_push th_pop FUEL Hth s x s1 r I Dbs Hpre E Hub1 Ed)
+                (WL_step s x s1 r I W (proj1 Dbs) Hpre E Ed) Hub1 Hok).
+  Qed.
+
+  Theorem run_wl_no_ub : forall ops (s : state), Inv T s -> DbInv s -> WLfull s -> ub s = false ->
+    run_ok ops s = true -> ub (run ops s) = false.
+  Proof.
+    induction ops as [|x t IH]; intros s I Dbs W Hub Hok; simpl in *. exact Hub.
+    apply andb_true_iff in Hok. destruct Hok as [Hpre Hok].
+    destruct (step s x) as [s1 r] eqn:E. simpl in *.
+    assert (Hub1 : ub s1 = false). { rewrite (step_ub_wl s x s1 r I W (proj1 Dbs) Hpre E). exact Hub. }
+    destruct (dead_after x s1 r) eqn:Ed.
+    - destruct t; [exact Hub1|discriminate].
+    - destruct (step_inv T sort sort_perm sort_sorted th_propagate th_check th_push th_pop FUEL thp_ok thc_ok s x s1 r I Hpre E Hub1) as (I1 & _).
+      apply (IH s1 I1 (step_db T sort Hsort th_propagate th_check th_push th_pop FUEL Hth s x s1 r I Dbs Hpre E Hub1 Ed)
+                (WL_step s x s1 r I W (proj1 Dbs) Hpre E Ed) Hub1 Hok).
+  Qed.
+
+  Lemma init_wl : forall ts : TS, WLfull (init ts).
+  Proof.
+    intros ts. unfold SatCoreWlRun_Proofs.WLfull, init.
+    assert (Hvw : forall i c, ~ In c (vw (mkst [] [] [[]; []] [LF] [] [] [] [] [None] [0] ts [] false) None i)).
+    { intros i c. rewrite vw_none. simpl. destruct i as [|[|i]]; simpl; auto. destruct i; auto. }
+    constructor; simpl; auto.
+    - intros i c H. exfalso. exact (Hvw i c H).
+    - intros c l0 l1 r [i Hi]. exfalso. exact (Hvw i c Hi).
+    - intros i. rewrite vw_none. simpl. destruct i as [|[|i]]; simpl; try constructor. destruct i; constructor.
+    - intros c [].
+    - intros c [i Hi]. exfalso. exact (Hvw i c Hi).
+    - intros c l0 l1 r [i Hi]. exfalso. exact (Hvw i c Hi).
+  Qed.
+
+  (* under the watch invariant, with nothing left to propagate, a clause none of whose watched literals is
+     unassigned has a true literal *)
+  Lemma WL_live_clause_true : forall (s : state) c, Inv T s -> WLfull s -> prop_q s = [] -> In c (constrs s) ->
+    (forall l, In l (lits_of s c) -> value_lit s l <> LU) -> exists l, In l (lits_of s c) /\ value_lit s l = LT.
+  Proof.
+    intros s c I W Hq Hc Hall. pose proof (wl_live _ _ _ W c Hc) as Ha. destruct Ha as [i Hi].
+    destruct (wl_shape _ _ _ W i c Hi) as (l0 & l1 & r & El & _).
+    assert (Ha : attached s None c) by (exists i; exact Hi).
+    destruct (wl_sem _ _ _ W c l0 l1 r Ha El) as [S0 _]. rewrite El in *.
+    destruct (value_lit s l0) eqn:V0.
+    - exists l1. split. simpl; auto. apply S0; auto.
+      + destruct (value_lit_false T s l0 (proj1 I) V0) as [Hin| ->].
+        * pose proof (lvl_le_dl T s (lneg l0) (proj1 I) Hin) as H. unfold SatCoreAnalyze_Proofs.lvl in *. simpl in H. exact H.
+        * unfold SatCoreAnalyze_Proofs.lvl. simpl. rewrite (lvl_var0 T s (proj1 I)). lia.
+      + intros [Hx|[rest [Hx _]]]. rewrite Hq in Hx. destruct Hx. discriminate.
+    - exists l0. simpl; auto.
+    - exfalso. apply (Hall l0); simpl; auto.
   Qed.
 End WlThm.
+
+Section WlClosed.
+  Context {TS : Type}.
+  Variables (T : asg -> Prop) (sort : (lit -> lit -> bool) -> list lit -> list lit).
+  Variables (thp : TS -> list lbool -> nat -> lit -> TS * list (list lit) * option (list lit))
+            (thc : TS -> list lbool -> nat -> TS * list (list lit) * option (list lit)) (thpush thpop : TS -> TS) (FUEL : nat).
+  Hypothesis Hsort : sort_contract sort.
+  Hypothesis sort_key_sorted : forall (key : lit -> nat) l,
+    StronglySorted (fun a b => key b <= key a) (sort (fun a b => Nat.ltb (key b) (key a)) l).
+  Hypothesis Hth : theory_contract T thp thc.
+  (* the theory never records a lemma and never reports a conflict (the propositional network) *)
+  Hypothesis th_quiet_p : forall ts a dl p, snd (fst (thp ts a dl p)) = [] /\ snd (thp ts a dl p) = None.
+  Hypothesis th_quiet_c : forall ts a dl, snd (fst (thc ts a dl)) = [] /\ snd (thc ts a dl) = None.
+  Notation run := (run sort thp thc thpush thpop FUEL).
+  Notation run_ok := (run_ok sort thp thc thpush thpop FUEL).
+
+  (* no history inside the documented preconditions reaches undefined behaviour, simplify_db included *)
+  Theorem c07_no_ub : forall ops ts, run_ok ops (init ts) = true -> ub (run ops (init ts)) = false.
+  Proof.
+    intros ops ts Hok.
+    apply (run_wl_no_ub T sort Hsort sort_key_sorted thp thc thpush thpop FUEL Hth th_quiet_p th_quiet_c ops (init ts)
+             (init_inv T ts) (init_db ts) (init_wl ts) eq_refl Hok).
+  Qed.
+
+  (* the two-watched-literal invariant holds after every history that can be continued *)
+  Theorem c07_watch_invariant : forall ops o ts, run_ok (ops ++ [o]) (init ts) = true ->
+    WL (decision_level (run ops (init ts))) None (run ops (init ts)).
+  Proof.
+    intros ops o ts Hok.
+    apply (run_wl T sort Hsort sort_key_sorted thp thc thpush thpop FUEL Hth th_quiet_p th_quiet_c ops o (init ts)
+             (init_inv T ts) (init_db ts) (init_wl ts) eq_refl Hok).
+  Qed.
+
+  (* (v): nothing left to propagate and every variable assigned: every clause ever given to new_clause is satisfied *)
+  Theorem c07_total_assignment_satisfies_added_clauses : forall ops o ts, run_ok (ops ++ [o]) (init ts) = true ->
+    prop_q (run ops (init ts)) = [] ->
+    (forall v, v < nvars (run ops (init ts)) -> value_var (run ops (init ts)) v <> LU) ->
+    forall c, In c (added (log (run ops (init ts)))) -> sat_clause (asg_of (run ops (init ts))) c.
+  Proof.
+    intros ops o ts Hok Hq Hall.
+    destruct (run_wl T sort Hsort sort_key_sorted thp thc thpush thpop FUEL Hth th_quiet_p th_quiet_c ops o (init ts)
+             (init_inv T ts) (init_db ts) (init_wl ts) eq_refl Hok) as (Hub & I & _ & W).
+    apply (c07_total_assignment_satisfies_added_clauses_partial T sort thp thc thpush thpop FUEL Hsort Hth ops o ts Hok Hub).
+    intros c Hc. apply (WL_live_clause_true T _ c I W Hq Hc).
+    intros l Hl Hv. apply (Hall (fst l)). apply (i_cls_range T _ (proj1 I) c l Hl).
+    unfold value_lit in Hv. destruct (value_var (run ops (init ts)) (fst l)); auto; destruct (snd l); discriminate.
+  Qed.
+End WlClosed.
+
+(* the instance run by the differential harness *)
+Lemma nt_quiet_p : forall ts a dl p, snd (fst (nt_propagate ts a dl p)) = [] /\ snd (nt_propagate ts a dl p) = None.
+Proof. intros. split; reflexivity. Qed.
+Lemma nt_quiet_c : forall ts a dl, snd (fst (nt_check ts a dl)) = [] /\ snd (nt_check ts a dl) = None.
+Proof. intros. split; reflexivity. Qed.
+
+Theorem c07_no_ub_propositional : forall fuel ops,
+  run_ok (@isort lit) nt_propagate nt_check nt_id nt_id fuel ops p_init = true ->
+  ub (run (@isort lit) nt_propagate nt_check nt_id nt_id fuel ops p_init) = false.
+Proof.
+  intros fuel ops. apply (c07_no_ub no_theory (@isort lit) nt_propagate nt_check nt_id nt_id fuel isort_contract isort_key_sorted
+                            no_theory_contract nt_quiet_p nt_quiet_c ops tt).
+Qed.
+Theorem c07_total_assignment_propositional : forall fuel ops o,
+  let s := run (@isort lit) nt_propagate nt_check nt_id nt_id fuel ops p_init in
+  run_ok (@isort lit) nt_propagate nt_check nt_id nt_id fuel (ops ++ [o]) p_init = true ->
+  prop_q s = [] -> (forall v, v < nvars s -> value_var s v <> LU) ->
+  forall c, In c (added (log s)) -> sat_clause (asg_of s) c.
+Proof.
+  intros fuel ops o s. apply (c07_total_assignment_satisfies_added_clauses no_theory (@isort lit) nt_propagate nt_check nt_id nt_id fuel
+    isort_contract isort_key_sorted no_theory_contract nt_quiet_p nt_quiet_c ops o tt).
+Qed.
+
+(* C08, propositional network: the `ub = false` side condition of pop-after-assume is discharged by the theorem above *)
+Theorem c08_pop_assume_prop_no_ub : forall FUEL ops, run_ok (@isort lit) nt_propagate nt_check nt_id nt_id FUEL ops p_init = true ->
+  forall p s', pre (run (@isort lit) nt_propagate nt_check nt_id nt_id FUEL ops p_init) (OAssume p) = true ->
+  assume (@isort lit) nt_propagate nt_check nt_id nt_id FUEL (run (@isort lit) nt_propagate nt_check nt_id nt_id FUEL ops p_init) p = (s', RTrue) ->
+  log s' = log (run (@isort lit) nt_propagate nt_check nt_id nt_id FUEL ops p_init) ->
+  SatCoreUndo_Proofs.restored unit (fun ts => ts) (run (@isort lit) nt_propagate nt_check nt_id nt_id FUEL ops p_init) (pop nt_id s').
+Proof.
+  intros FUEL ops Hok p s' Hpre Ea Hlog.
+  apply (SatCoreUndo_Proofs.c08_pop_assume_prop FUEL ops Hok (c07_no_ub_propositional FUEL ops Hok) p s' Hpre Ea Hlog).
+Qed.
